@@ -40,6 +40,19 @@ Proof. vm_compute. reflexivity. Qed.
 Lemma no_other_context_write : c18_other_ctx_writes = [].
 Proof. vm_compute. reflexivity. Qed.
 
+(* the only contexts gorm manufactures itself are the ones it hands to its logger and the root
+   statement of Open; it never rebinds a handle (no internal WithContext call) *)
+Definition fresh_ok (f : string * string * string) : bool :=
+  let '(_, call, usage) := f in
+  (str_eqb call "context.Background" || str_eqb call "context.TODO")
+  && (str_eqb usage "logger" || str_eqb usage "open_root").
+
+Lemma no_manufactured_context : forallb fresh_ok c18_fresh_contexts = true.
+Proof. vm_compute. reflexivity. Qed.
+
+Lemma no_internal_rebind : c18_internal_rebinds = [].
+Proof. vm_compute. reflexivity. Qed.
+
 (* the extractor still sees the sites and literals the harness attributes events to *)
 Lemma sites_present : (10 <=? length c18_call_sites)%nat && (20 <=? length c18_sessions)%nat = true.
 Proof. vm_compute. reflexivity. Qed.
